@@ -1,7 +1,10 @@
 SPECIFICATION Spec
 CONSTANTS
-  SWriters = 4
+  SWriters = 3
   SPer = 2
+  DWriters = 1
+  DPer = 2
+  SharedEncoder = FALSE
   SendLock = TRUE
-INVARIANTS FramingIntact StreamOrder
+INVARIANTS FramingIntact StreamOrder NoCorruptMessage
 CHECK_DEADLOCK FALSE
